@@ -9,7 +9,11 @@ Directive grammar (lines starting with //@ inside a unit template):
   //@spec                                     following lines go between signature and body
   //@loop <n>                                 following lines go before the body of the n-th loop
   //@proof before|after|entry|exit "<text>" [#k]     ghost lines spliced at a statement anchor
-  //@rw <RULE> [count=n]  //@old ... //@new ...      declared syntactic rewrite (fail-closed)
+  //@rw <RULE> [count=n] [optional]  //@old ... //@new ...      declared syntactic rewrite (fail-closed; `optional`: 0 matches = text kept verbatim)
+  //@hoist <fn> [<fn> ...]                    R-HOIST: the nested fn items of this function — exactly the
+                                              named set, fail-closed — are removed from its body because the
+                                              unit supplies each of them as a top-level item (its own //@extract
+                                              of the same nested fn, or a declared stand-in)
   //@end
 
 Clause labels: a trailing comment  //@ob C19.vm.insert.len [C01.x]  on a clause line.
@@ -19,7 +23,7 @@ import os
 import re
 import shlex
 
-from extract import Source, Undecided, blank, match_close, strip_attrs
+from extract import Source, Undecided, blank, body_open, depth_map, match_close, strip_attrs
 
 LOOP_RX = re.compile(r'(?<![A-Za-z0-9_])(while|for|loop)(?![A-Za-z0-9_])')
 
@@ -192,6 +196,7 @@ class Generator:
         loops = {}
         proofs = []
         rws = []
+        hoist = None
         cur = None
         for bl in block:
             bs = bl.strip()
@@ -212,8 +217,15 @@ class Generator:
                 cur = pr['lines']
             elif bs.startswith('//@rw'):
                 dd = _kv(bs[len('//@rw'):])
-                rw = {'rule': dd['_'][0], 'count': int(dd.get('count', 1)), 'old': [], 'new': []}
+                # `optional`: when the pattern is absent (0 matches) nothing is rewritten and the text goes to the
+                # verifier verbatim — still fail-closed (Verus either accepts the original construct or the unit is
+                # undecided), but an edit that removes the rewritten construct reaches the contracts instead of exit 2
+                rw = {'rule': dd['_'][0], 'count': int(dd.get('count', 1)), 'old': [], 'new': [],
+                      'optional': 'optional' in dd['_'][1:]}
                 rws.append(rw)
+                cur = None
+            elif bs.startswith('//@hoist'):
+                hoist = bs.split()[1:]
                 cur = None
             elif bs.startswith('//@old'):
                 cur = rws[-1]['old']
@@ -259,6 +271,9 @@ class Generator:
         if marker not in whole:
             raise Undecided(f'{f.id}: rewrite destroyed the header/body boundary')
         header, body = whole.split(marker, 1)
+        if hoist is not None:
+            body, nh = self.hoist_nested(body, hoist, f)
+            bump('R-HOIST', nh)
         # name the return value
         if ret:
             hs = blank(header)
@@ -301,6 +316,8 @@ class Generator:
             new = '\n'.join(rw['new']).strip('\n')
             rx = _ws_regex(old)
             hits = list(rx.finditer(text))
+            if rw.get('optional') and not hits:
+                continue
             if len(hits) != rw['count']:
                 raise Undecided(f"{f.id}: rewrite {rw['rule']} expected {rw['count']} match(es) of {old[:60]!r}, found {len(hits)}")
             # fail-closed: a `$n` wildcard may only capture bracket-balanced text, so that with a pattern
@@ -318,6 +335,26 @@ class Generator:
             text = rx.sub(lambda m: re.sub(r'\$(\d)', lambda g: m.group('g' + g.group(1)), new), text)
             bump(rw['rule'], len(hits))
         return text
+
+    def hoist_nested(self, body, names, f):
+        """R-HOIST: drop the nested `fn` items (direct children of the body block) from `body`.
+        The set of nested fns must be exactly `names`; anything else is a lost anchor."""
+        scan = blank(body)
+        dm = depth_map(scan, 0, len(scan))
+        found = []
+        for m in re.finditer(r'(?<![A-Za-z0-9_])fn\s+([A-Za-z0-9_]+)', scan):
+            if dm[m.start()] != 1:
+                continue
+            o = body_open(scan, m.end(), len(scan))
+            if scan[o] != '{':
+                continue
+            c = match_close(scan, o)
+            found.append((m.group(1), Source('', body)._extend_back(m.start()), c))
+        if sorted(n for n, _, _ in found) != sorted(names):
+            raise Undecided(f"{f.id}: lost anchor: //@hoist expects nested fns {sorted(names)}, body has {sorted(n for n, _, _ in found)}")
+        for _, a, c in sorted(found, key=lambda x: -x[1]):
+            body = body[:a] + body[c + 1:]
+        return body, len(found)
 
     def splice_loops(self, body, loops, f):
         scan = blank(body)
